@@ -19,7 +19,8 @@ META = {
             'a call (exact type); (d) repr(value) of a float is used only on the false branches of the inf / -inf / nan tests and '
             'those print float(\'inf\' | \'-inf\' | \'nan\'); (e) dict keys are iterated in the dict\'s own order, or through sorted() '
             'with a key that compares values first, with no other reordering; (f) True/False/None/... atoms; (g) a printer is '
-            'registered for each of the twelve built-in literal types, bool separately from int.',
+            'registered for each of the twelve built-in literal types, bool separately from int; (i) no function of the printing '
+            'pipeline is memoised by an equality-keyed cache (0.0/-0.0, 1/True/1.0 would share one text).',
     'note': 'escaping is the subject of C02; equality after evaluation, signed zero and float precision are delegated to the '
             'built-in __repr__',
     'technique': 'static analysis: abstract interpretation over a doc-shape domain (type scenarios), guard facts, def-use on the '
@@ -234,49 +235,77 @@ def run(repo, rep):
                       'a native %s is printed as the call %s' % (base, D.show(t)[:60]), nontrivial=True)
     rep.floor('C01.c:leaves', n, 30)
 
-    # ---------------------------------------------------------------- C01.d special floats
+    # ---------------------------------------------------------------- C01.d special floats (semantic: read off the interpreted paths)
     n = 0
     pf = S.printer_for(repo, 'float')
-    value = pf.params[0]
-    g = Guards(pf.node)
-    lits = [c for c in ast.walk(pf.node) if isinstance(c, ast.Call) and (
-        (call_name(c) in ('repr', '_builtin_repr') and any(isinstance(a, ast.Name) and a.id == value for a in c.args)) or
-        call_name(c).endswith('.__repr__'))]
+
+    def _special(key):
+        if 'isnan(' in key:
+            return 'nan'
+        if "float('-inf')" in key and '==' in key:
+            return '-inf'
+        if "float('inf')" in key and '==' in key:
+            return 'inf'
+        return None
+
+    def _has_repr_literal(t):
+        return t is not None and 'repr' in D.show(t)
+    itf = S.interp(repo, 'printer')
+    seen_special = set()
+    for native in (True, False):
+        v = ValueV('value', S.type_scenario('float', native), None)
+        try:
+            res = S.run_printer(repo, itf, pf, v)
+        except Undecided as e:
+            rep.undecided('C01.d', 'pretty_float[%s]' % ('float' if native else 'subclass'), pf.where, str(e))
+            n += 1
+            continue
+        for pr, t, ph in res:
+            pfacts = dict(pr.facts)
+            kinds = {}
+            other = []
+            for k_, v_ in pfacts.items():
+                sp = _special(k_)
+                if sp:
+                    kinds[sp] = v_
+                elif 'depth_left' not in k_:
+                    other.append(k_)
+            which = [k_ for k_, v_ in kinds.items() if v_]
+            lab = '%s{%s}' % ('float' if native else 'subclass', pr.fact_text()[:80])
+            if pr.raised is not None:
+                n += 1
+                rep.fail('C01.d', 'pretty_float:' + lab, pf.where, 'printer raises %s' % pr.raised.what)
+                continue
+            if which:
+                seen_special.add(which[0])
+                n += 1
+                args = [a_.s if isinstance(a_, D.Text) else (a_.v if hasattr(a_, 'v') else D.show(a_) if isinstance(a_, D.T) else a_) for a_ in (t.args if isinstance(t, D.Call) else [])]
+                ok = isinstance(t, D.Call) and t.fn.startswith('ident(') and [str(x).strip("'") for x in args] == [which[0]]
+                rep.check(ok, 'C01.d', 'pretty_float:special:%s[%s]' % (which[0], 'float' if native else 'subclass'), pf.where,
+                          "printed as float('%s')" % which[0],
+                          "when the value is %s the float printer returns %s instead of the call float('%s')" % (which[0], D.show(t)[:80] if t is not None else None, which[0]),
+                          nontrivial=True)
+            elif _has_repr_literal(t):
+                n += 1
+                excluded = [k_ for k_ in ('inf', '-inf', 'nan') if kinds.get(k_) is False]
+                if len(excluded) < 3 and other:
+                    rep.undecided('C01.d', 'pretty_float:repr-only-for-finite:' + lab, pf.where,
+                                  'cannot tell whether the tests %s exclude inf / -inf / nan' % other)
+                else:
+                    rep.check(len(excluded) == 3, 'C01.d', 'pretty_float:repr-only-for-finite[%s]' % ('float' if native else 'subclass'), pf.where,
+                              'repr used only when the value is not inf, -inf, nan',
+                              'the float literal is taken from repr on a path where only %s are excluded (path: %s): "inf" and "nan" '
+                              'are not valid Python expressions' % (excluded or 'none of inf/-inf/nan', pr.fact_text()[:160]), nontrivial=True)
     n += 1
-    rep.check(len(lits) >= 1, 'C01.d', 'pretty_float:literal-site', pf.where, 'float literal comes from repr', 'no repr-based literal found')
-    for c in lits:
-        fs = g.of(c)
-        neg = [f.text for f in fs if not f.pol]
-        inf_ok = any(_eq(f.test, value, 'INF_FLOAT', "float('inf')") for f in fs if not f.pol)
-        ninf_ok = any(_eq(f.test, value, 'NEG_INF_FLOAT', "float('-inf')") for f in fs if not f.pol)
-        nan_ok = any('isnan(%s)' % value in f.text for f in fs if not f.pol)
-        n += 1
-        rep.check(inf_ok and ninf_ok and nan_ok, 'C01.d', 'pretty_float:repr-only-for-finite', '%s:%d' % (pf.module.relpath, c.lineno),
-                  'repr used only when the value is not inf, -inf, nan',
-                  'the float literal is taken from repr on a path where inf / -inf / nan are not excluded (excluded: %s): "inf" and "nan" '
-                  'are not valid Python expressions' % neg, nontrivial=True)
-    for name, const_names in (('inf', ('INF_FLOAT', "float('inf')")), ('-inf', ('NEG_INF_FLOAT', "float('-inf')")), ('nan', None)):
-        found = False
-        for r in ast.walk(pf.node):
-            if isinstance(r, ast.Return) and isinstance(r.value, ast.Call) and call_name(r.value) in ('pretty_call_alt', 'pretty_call'):
-                kw = {k.arg: k.value for k in r.value.keywords}
-                a = kw.get('args')
-                if a is not None and src(a).replace(' ', '') == "('%s',)" % name:
-                    fs = g.of(r)
-                    if const_names:
-                        guard = any(f.pol and _eq(f.test, value, *const_names) for f in fs)
-                    else:
-                        guard = any(f.pol and 'isnan(%s)' % value in f.text for f in fs)
-                    found = guard and src(r.value.args[1]) in ('constructor', 'type(%s)' % value, 'float')
-        n += 1
-        rep.check(found, 'C01.d', 'pretty_float:special:%s' % name, pf.where, "float('%s') under its own test" % name,
-                  "no return of the call float('%s') guarded by the matching test was found" % name, nontrivial=True)
-    for cname, val in (('INF_FLOAT', "float('inf')"), ('NEG_INF_FLOAT', "float('-inf')")):
-        a = m.assigns.get(cname)
-        n += 1
-        rep.check(bool(a) and src(a[-1]) == val, 'C01.d', 'constant:%s' % cname, m.relpath, '%s = %s' % (cname, val),
-                  '%s is %s' % (cname, src(a[-1]) if a else None))
-    rep.floor('C01.d', n, 7)
+    rep.check(seen_special == {'inf', '-inf', 'nan'}, 'C01.d', 'pretty_float:all-three-special-cases', pf.where, 'inf, -inf and nan each have their own path',
+              'the float printer distinguishes only %s' % sorted(seen_special), nontrivial=True)
+    rep.floor('C01.d', n, 9)
+
+    # ---------------------------------------------------------------- C01.i no equality-keyed memo between a value and its text
+    from . import shared_state as SS
+    nf = SS.memoised_in_cone(repo, rep, 'C01.i', 'arguments that are equal but not the same value (0.0 and -0.0, 1 and True and 1.0, 2 and an IntEnum '
+                             'member) share one cached result, so a value can be printed as the text of a different value of a different type')
+    rep.floor('C01.i', nf, 1)
 
     # ---------------------------------------------------------------- C01.e key order (semantic: read off the interpreted dict printer)
     n = 0
